@@ -49,22 +49,35 @@ class Lock:
 
 # ----------------------------------------------------------------------------------------------- proofs
 
+def strip_comments(text):
+    text = re.sub(r"/-.*?-/", "", text, flags=re.S)
+    return re.sub(r"--.*", "", text)
+
+
 def theorem_names(pid):
-    """Property theorems = every `theorem <pid>_...` in Props/<pid>.lean (helper lemmas live elsewhere)."""
+    """Property theorems = every `theorem <pid>_...` in Props/<pid>.lean (helper lemmas live elsewhere).
+    Returns fully qualified names (the file may open several namespaces one after the other)."""
     text = open(os.path.join(LEAN, "SwimVerif", "Props", pid + ".lean"), encoding="utf-8").read()
-    names = re.findall(r"^theorem\s+(" + pid + r"_\w+)", text, re.M)
-    ns = re.search(r"^namespace\s+([\w.]+)", text, re.M)
-    opens = re.findall(r"^def\s+(" + pid + r"_\w+_open)\b", text, re.M)
-    return (ns.group(1) if ns else None), names, opens
+    text = strip_comments(text)
+    ns_stack, names, opens = [], [], []
+    for line in text.splitlines():
+        m = re.match(r"^namespace\s+([\w.]+)", line)
+        if m:
+            ns_stack.append(m.group(1)); continue
+        m = re.match(r"^end\s+([\w.]+)", line)
+        if m and ns_stack and ns_stack[-1] == m.group(1):
+            ns_stack.pop(); continue
+        m = re.match(r"^theorem\s+(" + pid + r"_\w+)", line)
+        if m:
+            names.append(".".join(ns_stack + [m.group(1)])); continue
+        m = re.match(r"^def\s+(" + pid + r"_\w+_open)\b", line)
+        if m:
+            opens.append(m.group(1))
+    return None, names, opens
 
 
 FORBIDDEN = re.compile(r"\bsorry\b|\badmit\b|^\s*axiom\s|native_decide|bv_decide|implemented_by|\bunsafe\s|maxHeartbeats\s+0",
                        re.M)
-
-
-def strip_comments(text):
-    text = re.sub(r"/-.*?-/", "", text, flags=re.S)
-    return re.sub(r"--.*", "", text)
 
 
 def lean_sources_for(pid, cfg):
